@@ -6,6 +6,7 @@
   `chord*_radicand_nonneg` show no negative radicand occurs, `0 < rs` is a hypothesis wherever `/ rs^2` matters.
 -/
 import Proofs.C01c
+import Proofs.C01Geom
 
 open Finset
 
@@ -291,5 +292,72 @@ example : WellFormed true (1 : ℝ) 2 2 (fun l => (l : ℝ)) (fun l => (l : ℝ)
   wellFormed_of_shells true 1 2 (by norm_num) 2 _ _ _ _
     ⟨by norm_num, fun _ _ => rfl, fun l _ => by push_cast; ring, fun _ _ => by norm_num⟩
     (fun _ _ => by norm_num) nvContribs nvContribs_nonneg
+
+/-! ### the 3-D line/sphere geometry of `new_path_method=True` (`Taurex.Geometry`, mirroring taurex/util/geometry.py) -/
+
+open Taurex.Geometry in
+/-- the ray origin `(-(R + 2·max(zb)), b, 0)` the code uses lies outside (or on) every boundary sphere.
+    (The seeded defect `-(R + 2·alt)` violates exactly this for tall atmospheres.) -/
+theorem origin_outside (rp : ℝ) (n : ℕ) (zb z dz : ℕ → ℝ) (G : GeomOK rp n zb z dz) (alt : ℝ) (j : ℕ) (hj : j ≤ n) :
+    (rp + zb j) * (rp + zb j) ≤ normSq (parallelVector rp alt (arrMax n zb)).1 := by
+  have h := origin_outside_aux G (rp + alt) j hj
+  simp only [parallelVector, normSq, V3.mul, V3.sum]
+  nlinarith
+
+open Taurex.Geometry in
+/-- per sphere: for a ray `o = (-X, b, 0)`, `u = (1, 0, 0)` whose origin is outside the sphere of radius `R+h`
+    (`(R+h)² - b² ≤ X²`), that hits it (`0 ≤ (R+h)² - b²`) and does not cross the planet (`R² ≤ b²`), the stored
+    intersection distance is the full chord `2·sqrt((R+h)² - b²)` -/
+theorem sphere_chord (R h X b : ℝ) (hX : 0 ≤ X) (hhit : 0 ≤ (R + h) * (R + h) - b * b)
+    (hout : (R + h) * (R + h) - b * b ≤ X * X) (hc : R * R - b * b ≤ 0) :
+    hitDistance (intersect R h ⟨1, 0, 0⟩ ⟨-X, b, 0⟩) = 2 * Real.sqrt ((R + h) * (R + h) - b * b) :=
+  hitDistance_eq R h X b hX hhit hout hc
+
+open Taurex.Geometry in
+/-- … and what the code returns instead when the origin is strictly inside the sphere: the near parameter is
+    clamped to 0 and the distance is `X + sqrt(…)`, not the chord -/
+theorem origin_inside_clips (R h X b : ℝ) (hX : 0 ≤ X) (hin : X * X < (R + h) * (R + h) - b * b)
+    (hc : R * R - b * b ≤ 0) :
+    hitDistance (intersect R h ⟨1, 0, 0⟩ ⟨-X, b, 0⟩) = X + Real.sqrt ((R + h) * (R + h) - b * b) :=
+  hitDistance_clipped R h X b hX hin hc
+
+open Taurex.Geometry in
+/-- **the 3-D geometry equals the closed form**: on a well-formed shell grid (`Shells`, positive planet radius,
+    surface at non-negative altitude, layers of positive thickness) the geometric path length of tangent layer `l`,
+    segment `k`, is `chordNew rp zb z dz l k`, and the row has exactly `n - l` segments -/
+theorem path3d_eq_chordNew (rp : ℝ) (n : ℕ) (zb z dz : ℕ → ℝ) (G : GeomOK rp n zb z dz) (l k : ℕ) (hl : l < n)
+    (hk : k < n - l) : path3d rp n zb z dz l k = chordNew rp zb z dz l k := by
+  unfold path3d
+  rw [layerDists_eq G l hl]
+  unfold segs chordNew
+  by_cases h0 : k = 0
+  · subst h0
+    simp only [if_true]
+    rw [getD_map_range' _ _ _ _ _ (by omega)]
+  · simp only [h0, if_false]
+    rw [getD_map_range' _ _ _ _ _ hk, getD_map_range' _ _ _ _ _ (by omega)]
+    have e : l + 1 + (k - 1) = l + k := by omega
+    rw [e]
+
+open Taurex.Geometry in
+theorem pathRow3d_length (rp : ℝ) (n : ℕ) (zb z dz : ℕ → ℝ) (G : GeomOK rp n zb z dz) (l : ℕ) (hl : l < n) :
+    (pathRow3d rp n zb z dz l).length = n - l := by
+  simp only [pathRow3d, List.length_map, List.length_range]
+  rw [layerDists_eq G l hl]; simp
+
+open Taurex.Geometry in
+example : GeomOK (1 : ℝ) 3 (fun l => (l : ℝ)) (fun l => (l : ℝ)) (fun _ => 1) :=
+  ⟨⟨by norm_num, fun _ _ => rfl, fun l _ => by push_cast; ring, fun _ _ => by norm_num⟩, by norm_num, by norm_num,
+   fun _ _ => by norm_num⟩
+
+open Taurex.Geometry in
+example : path3d (1 : ℝ) 3 (fun l => (l : ℝ)) (fun l => (l : ℝ)) (fun _ => 1) 1 1
+    = chordNew (1 : ℝ) (fun l => (l : ℝ)) (fun l => (l : ℝ)) (fun _ => 1) 1 1 :=
+  path3d_eq_chordNew 1 3 _ _ _
+    ⟨⟨by norm_num, fun _ _ => rfl, fun l _ => by push_cast; ring, fun _ _ => by norm_num⟩, by norm_num, by norm_num,
+     fun _ _ => by norm_num⟩ 1 1 (by norm_num) (by norm_num)
+
+/-- the clipped case is not vacuous: origin at distance 1, sphere of radius 3, tangent radius 1 -/
+example := origin_inside_clips 1 2 1 1 (by norm_num) (by norm_num) (by norm_num)
 
 end Taurex.C01
